@@ -249,6 +249,7 @@ type rdFlow struct {
 	rule   string
 	report bool
 	memo   map[*ssa.Function]map[rdState]rdState // callee transfer: single in-state -> set of out-states
+	byBool map[*ssa.Call][2]rdState              // for a call of a bool-returning callee: states after it per returned constant (0 false, 1 true)
 	active map[*ssa.Function]bool
 	nOrd   int
 }
@@ -297,10 +298,28 @@ func (fl *rdFlow) step(in ssa.Instruction, st rdState, depth int) rdState {
 		cal := c.Common().StaticCallee()
 		if cal != nil && cal.Blocks != nil && cal.Pkg == w.Root && depth < 3 && !fl.active[cal] {
 			var out rdState
+			var parts [2]rdState
+			split := cal.Signature.Results().Len() == 1 && types.Identical(cal.Signature.Results().At(0).Type(), types.Typ[types.Bool])
 			for _, one := range []rdState{rdS0, rdS1, rdS2} {
 				if st&one != 0 {
 					out |= fl.transfer(cal, one, depth+1)
+					if split {
+						p, ok := fl.transferByBool(cal, one, depth+1)
+						if !ok {
+							split = false
+						}
+						parts[0] |= p[0]
+						parts[1] |= p[1]
+					}
 				}
+			}
+			if fl.byBool == nil {
+				fl.byBool = map[*ssa.Call][2]rdState{}
+			}
+			if split {
+				fl.byBool[c] = parts
+			} else {
+				delete(fl.byBool, c)
 			}
 			return out
 		}
@@ -332,6 +351,31 @@ func (fl *rdFlow) transfer(f *ssa.Function, in rdState, depth int) rdState {
 	return out
 }
 
+// transferByBool: for a callee returning a bool, the states in which it returns the constant false / true (ok is false when
+// some return is not a constant).
+func (fl *rdFlow) transferByBool(f *ssa.Function, in rdState, depth int) ([2]rdState, bool) {
+	var parts [2]rdState
+	ok := true
+	fl.active[f] = true
+	defer delete(fl.active, f)
+	saved := fl.report
+	fl.report = false
+	fl.run(f, in, depth, func(ret *ssa.Return, st rdState) {
+		b, isC := constBool(ret.Results[0])
+		if !isC {
+			ok = false
+			return
+		}
+		if b {
+			parts[1] |= st
+		} else {
+			parts[0] |= st
+		}
+	})
+	fl.report = saved
+	return parts, ok
+}
+
 // run is the forward dataflow; atRet, when given, receives the state set at each return.
 func (fl *rdFlow) run(f *ssa.Function, in rdState, depth int, atRet func(*ssa.Return, rdState)) rdState {
 	ins := map[*ssa.BasicBlock]rdState{f.Blocks[0]: in}
@@ -343,16 +387,44 @@ func (fl *rdFlow) run(f *ssa.Function, in rdState, depth int, atRet func(*ssa.Re
 		b := work[0]
 		work = work[1:]
 		st := ins[b]
+		var lastCall *ssa.Call
+		var afterCall rdState
 		for _, i := range b.Instrs {
 			st = fl.step(i, st, depth)
+			if c, ok := i.(*ssa.Call); ok {
+				if _, has := fl.byBool[c]; has {
+					lastCall, afterCall = c, st
+				}
+			}
 		}
 		if o, seen := outs[b]; seen && o == st {
 			continue
 		}
 		outs[b] = st
-		for _, s := range b.Succs {
-			if ins[s]|st != ins[s] {
-				ins[s] |= st
+		for k, s := range b.Succs {
+			es := st
+			// a branch on the bool a callee returned: each edge carries only the states in which the callee returns that value
+			if lastCall != nil && afterCall == st {
+				if iff, ok := lastInstr(b).(*ssa.If); ok {
+					c, neg := iff.Cond, false
+					for {
+						u, isNot := c.(*ssa.UnOp)
+						if !isNot || u.Op != token.NOT {
+							break
+						}
+						c, neg = u.X, !neg
+					}
+					if c == ssa.Value(lastCall) {
+						want := 1
+						if (k == 0) == neg {
+							want = 0
+						}
+						es = fl.byBool[lastCall][want]
+					}
+				}
+			}
+			if ins[s]|es != ins[s] {
+				ins[s] |= es
 				work = append(work, s)
 			} else if _, seen := outs[s]; !seen {
 				work = append(work, s)
@@ -877,7 +949,44 @@ func c05R8(a *A, r *Roles) {
 					isLocalCell = true
 				}
 			}
-			a.check(!isLocalCell, rule, fmt.Sprintf("shared-cell@arg#%d", i), w.posOf(r.GoInstr), "passed by value at the go statement", "the address of a local variable is handed to the reader goroutine")
+			if isLocalCell {
+				// a state object built for the goroutine: fine when the starter only writes it before the go statement and
+				// nobody else ever writes its fields (the starter may still read, e.g. return its channel)
+				al := strip(arg).(*ssa.Alloc)
+				if st := structOf(al.Type()); st != nil && al.Heap {
+					okObj := true
+					for _, ref := range *al.Referrers() {
+						switch x := ref.(type) {
+						case *ssa.FieldAddr:
+							for _, rr := range *x.Referrers() {
+								if s2, ok := rr.(*ssa.Store); ok && s2.Addr == ssa.Value(x) && !instrDominates(s2, r.GoInstr) {
+									okObj = false
+								}
+							}
+						case *ssa.Store:
+							if x.Addr == ssa.Value(al) && !instrDominates(x, r.GoInstr) {
+								okObj = false
+							}
+						}
+					}
+					for _, g := range w.srcFuncs(w.Root) {
+						if g == r.StartDump {
+							continue
+						}
+						instrs(g, func(in ssa.Instruction) {
+							if s2, ok := in.(*ssa.Store); ok {
+								if fa, ok := s2.Addr.(*ssa.FieldAddr); ok && types.Identical(fa.X.Type(), al.Type()) {
+									okObj = false
+								}
+							}
+						})
+					}
+					if okObj {
+						isLocalCell = false
+					}
+				}
+			}
+			a.check(!isLocalCell, rule, fmt.Sprintf("shared-cell@arg#%d", i), w.posOf(r.GoInstr), "passed by value at the go statement (or a state object written only before it)", "the address of a local variable is handed to the reader goroutine")
 		}
 	}
 	// connection fields: stored only in the constructor, on the fresh object
@@ -937,27 +1046,39 @@ func c05R9(a *A, r *Roles) {
 	const rule = "C05-R9"
 	w := a.W
 	// blocking operations on Stream's own goroutine inside the library
-	fns := reachableIn(w.Root, r.Stream)
-	delete(fns, r.Reader)
-	for f := range reachableIn(w.Root, r.Reader) {
-		if f != r.CloseConn && f.Parent() != r.CloseConn {
-			// reader-only functions are not on Stream's goroutine
-			onStream := false
-			for g := range fns {
-				if g == r.Reader || g.Parent() == r.Reader {
-					continue
-				}
-				instrs(g, func(in ssa.Instruction) {
-					if c, ok := in.(*ssa.Call); ok && c.Common().StaticCallee() == f {
-						onStream = true
-					}
-				})
-			}
-			if !onStream {
-				delete(fns, f)
-			}
+	// = reachable from Stream without following go statements (what a go statement starts runs on another goroutine)
+	fns := map[*ssa.Function]bool{}
+	var visit func(f *ssa.Function)
+	visit = func(f *ssa.Function) {
+		if f == nil || fns[f] || f.Blocks == nil || enclosingPkg(f) != w.Root {
+			return
 		}
+		fns[f] = true
+		instrs(f, func(in ssa.Instruction) {
+			if _, isGo := in.(*ssa.Go); isGo {
+				return
+			}
+			if mc, ok := in.(*ssa.MakeClosure); ok {
+				// a closure made here runs on this goroutine unless it is only ever started by a go statement
+				onlyGo := true
+				for _, ref := range *mc.Referrers() {
+					if g, isGo := ref.(*ssa.Go); !(isGo && g.Call.Value == ssa.Value(mc)) {
+						onlyGo = false
+					}
+				}
+				if !onlyGo {
+					visit(mc.Fn.(*ssa.Function))
+				}
+				return
+			}
+			if ci, ok := in.(ssa.CallInstruction); ok {
+				if cal := ci.Common().StaticCallee(); cal != nil {
+					visit(cal)
+				}
+			}
+		})
 	}
+	visit(r.Stream)
 	n := 0
 	for f := range fns {
 		if f == r.ErrorM {
@@ -1034,6 +1155,33 @@ func traceToStarter(v ssa.Value, f *ssa.Function, r *Roles, reach map[*ssa.Funct
 			}
 		}
 		return nil
+	}
+	// a field of an object that traces back to something the starter built: what the starter stored into that field before
+	// the go statement
+	if u, ok := v.(*ssa.UnOp); ok && u.Op == token.MUL {
+		if fa, ok := u.X.(*ssa.FieldAddr); ok {
+			base := traceToStarter(fa.X, f, r, reach, depth+1)
+			if al, ok := base.(*ssa.Alloc); ok && al.Parent() == r.StartDump {
+				var stored ssa.Value
+				n := 0
+				for _, ref := range *al.Referrers() {
+					if fa2, ok := ref.(*ssa.FieldAddr); ok && fa2.Field == fa.Field {
+						for _, rr := range *fa2.Referrers() {
+							if st, ok := rr.(*ssa.Store); ok && st.Addr == ssa.Value(fa2) {
+								n++
+								if instrDominates(st, r.GoInstr) {
+									stored = st.Val
+								}
+							}
+						}
+					}
+				}
+				if n == 1 && stored != nil {
+					return strip(stored)
+				}
+			}
+			return nil
+		}
 	}
 	p, ok := v.(*ssa.Parameter)
 	if !ok {
